@@ -49,7 +49,8 @@ except ImportError:
 
 @builtinify
 def Ord(c):
-    return c if PYTHON3 else ord(c)
+    # Indexing bytes gives an int on Python 3; a one-byte read from a file is still bytes.
+    return c if isinstance(c, int) else ord(c)
 
 
 TYPE_NULL = "0"
@@ -456,6 +457,9 @@ class _Unmarshaller:
         c = self._read(1)
         if not c:
             raise EOFError
+        if not isinstance(c, str):
+            # type codes are kept as text; a binary file gives bytes
+            c = c.decode("latin-1")
         try:
             return self.dispatch[c](self)
         except KeyError:
